@@ -674,6 +674,12 @@ func main() {
 	spec.MaxDepth = depthChain
 	spec.Extra = extra{Mode: "chain", RemoveOrphans: run.Thorough()}
 	st2 := xplore.BFS(run, spec)
+	// written-out cases: the deepest representative histories of both searches
+	for _, reps := range [][][]int{st.Reps, st2.Reps} {
+		for k := len(reps) - 1; k >= 0 && k >= len(reps)-5; k-- {
+			run.Sample(describe(reps[k]))
+		}
+	}
 	run.Set("states", st.States+st2.States)
 	run.Set("transitions", st.Transitions+st2.Transitions)
 	run.Set("traces_validated_against_impl", st.Checks+st2.Checks)
